@@ -151,3 +151,14 @@ def h_string_matcher(c0: int, c1: int, c2: int, c3: int, c4: int, c5: int):
     sm2.init({'ID_' + v: [v] for v in VALUES})
     got2 = sorted((m.start, m.length, m.text, tuple(sorted(set(m.canonical_values)))) for m in sm2.find(q))
     assert got2 == [(s, l, t, tuple('ID_' + x for x in ids)) for (s, l, t, ids) in want], (q, got2)
+    # a dict whose ids share spellings (the same spelling under several ids, and twice under one): every id of a spelling is reported
+    shared = {'A': VALUES[:3], 'B': VALUES[1:], 'C': [VALUES[0], VALUES[0]]}
+    ids_of = {}
+    for k, vs in shared.items():
+        for v in vs:
+            ids_of.setdefault(v, set()).add(k)
+    sm3 = StringMatcher(MatchStrategy.TrieTree, tk)
+    sm3.init(shared)
+    got3 = sorted((m.start, m.length, m.text, tuple(sorted(set(m.canonical_values)))) for m in sm3.find(q))
+    want3 = [(s, l, t, tuple(sorted(set(i for x in vs for i in ids_of.get(x, ()))))) for (s, l, t, vs) in want]
+    assert got3 == want3, (q, got3, want3)
